@@ -403,6 +403,21 @@ def inclusion_sites(ctx, f, name, _seen=None):
                 out.append((x, x.args[0], set(dom_guard(ctx, f, n.id)), loops))
     return out
 
+def body_owner(ctx, f, has):
+    """f itself if its body satisfies has(FuncInfo); else the one method of the same object it hands its work to (a single call
+    `self._m(...)` in f's body whose callee satisfies has) - e.g. a method that became `return list(self._iter_x(ids))` around a
+    generator; else f"""
+    if has(f) or f.defining_cls is None:
+        return f
+    cands = []
+    for x in walk_shallow(f.node):
+        if isinstance(x, ast.Call) and isinstance(x.func, ast.Attribute) and isinstance(x.func.value, ast.Name) and x.func.value.id == "self":
+            m = ctx.P.lookup_method(f.defining_cls, x.func.attr)
+            if m is not None and m is not f and has(m):
+                cands.append(m)
+    return cands[0] if len({id(c) for c in cands}) == 1 else f
+
+
 def take_over(ctx, rep, fn, clause, only=None):
     """run the clause function `fn(ctx, report)` of another property and take its items over under `clause` (only those it filed under
     `only`, if given).  A refusal of the borrowed clause is recorded like one of an own clause; it does not end the run."""
